@@ -457,8 +457,10 @@ func (k *c17Case) gather() {
 
 // ---------------------------------------------------------------- generators (Prometheus-valid names and tags)
 
-var c17Names = []string{"requests", "latency", "a", "A:b_9", "_x", "rpc:calls_total", "q1", "m_2"}
-var c17KeySets = [][]string{{}, {"a"}, {"a", "b"}, {"env", "region"}, {"_k", "z9"}, {"b"}}
+// names and key sets include pairs that coincide when name and sorted keys are joined with '_' (or any other
+// character legal in both): m_x + {a} vs m + {x_a}; q1 + {a_b} vs q1 + {a, b}; a + {b} vs a_b + {}
+var c17Names = []string{"requests", "latency", "a", "A:b_9", "_x", "rpc:calls_total", "q1", "m_2", "m", "m_x", "a_b"}
+var c17KeySets = [][]string{{}, {"a"}, {"a", "b"}, {"env", "region"}, {"_k", "z9"}, {"b"}, {"a_b"}, {"x_a"}, {"env_region"}}
 var c17Values = []string{"x", "y", "", "prod", "é", "a,b=c+d", "line\nbreak", "\"q\"", "0", "世界"}
 
 var c17ValuePool = []float64{0, math.Copysign(0, -1), 1, -1, 0.5, 2, 2.5, 10, -10, 100, 1e-300, -1e-300, 5e-324, 1e300, -1e300, 3, 7,
